@@ -154,7 +154,7 @@ instance (k : Kind) (u : Bytes) (m : Nat) : Decidable (UnitWF k u m) := by
 /-- what `onAvPacket` must receive for a frame: the media time back in milliseconds, the unit itself
     (AVCC: 4-byte length first for video) -/
 def expected (kind : Kind) (rate : Nat) (f : Nat × Bytes) : AvPacket :=
-  { ts := rtpTimestamp f.1 rate / (rate / 1000),
+  { ts := msOf rate (rtpTimestamp f.1 rate),
     payload := match kind with
       | .avc | .hevc => be32 f.2.length ++ f.2
       | _ => f.2 }
